@@ -12,8 +12,9 @@ struct tdigest { bool reverse_merge_; uint16_t k_; uint16_t internal_k_; T min_;
                  uint64_t centroids_weight_; size_t buffer_capacity_; T* buffer_; size_t buffer_size; };
 #define CAPMAX ((size_t)2 * 65535 + 30)
 #define BUFCAP(s) ((s)->centroids_capacity_ * BUFFER_MULTIPLIER)
+/* the two arrays are allocated (typed) by the harness; the contracts require validity of the reserved capacities */
 #define TD_FRESH(s) ((s)->centroids_capacity_ >= 1 && (s)->centroids_capacity_ <= CAPMAX && (s)->centroids_size <= (s)->centroids_capacity_ && (s)->buffer_size <= BUFCAP(s) && \
-                     __CPROVER_is_fresh((s)->centroids_, (s)->centroids_capacity_ * 16 /* sizeof(struct centroid) */) && __CPROVER_is_fresh((s)->buffer_, BUFCAP(s) * 8 /* sizeof(T); literal: cbmc mis-sizes objects allocated with constant * sizeof */))
+                     __CPROVER_rw_ok((s)->centroids_, (s)->centroids_capacity_ * 16 /* sizeof(struct centroid) */) && __CPROVER_rw_ok((s)->buffer_, BUFCAP(s) * 8 /* sizeof(T) */))
 #define IS_EMPTY(s) ((s)->centroids_size == 0 && (s)->buffer_size == 0)
 double __CPROVER_uninterpreted_fdiv(double, double);
 #define FDIV(a, b) __CPROVER_uninterpreted_fdiv((double)(a), (double)(b))
@@ -40,7 +41,7 @@ VEC = [(r"self->centroids_\.size\(\)", "self->centroids_size", "any"), (r"self->
        (r"self->centroids_\.front\(\)", "self->centroids_[0]", "any"), (r"self->centroids_\.back\(\)", "self->centroids_[self->centroids_size - 1]", "any"),
        (r"\.get_mean\(\)", ".mean_", "any"), (r"\.get_weight\(\)", ".weight_", "any"),
        (r"self->buffer_\.push_back\(value\);", '{ __CPROVER_assert(self->buffer_size < BUFCAP(self), "VERIF buffer_.push_back within the reserved capacity"); self->buffer_[self->buffer_size++] = value; }', "any")]
-BASE = "__CPROVER_requires(__CPROVER_is_fresh(self, sizeof(*self)) && TD_FRESH(self))\n"
+BASE = "__CPROVER_requires(__CPROVER_rw_ok(self, sizeof(*self)) && TD_FRESH(self))\n"
 
 def fn(name, params, csig, contract, ret="void", **kw):
     d = {"name": name, "file": F, "members": MEMBERS, "match": r"%s %s::%s\(%s\)(?: const)?" % (ret, TD, name, params), "sig": csig, "contract": contract, "rules": VEC + kw.pop("rules", [])}
@@ -106,9 +107,13 @@ __CPROVER_loop_invariant(i <= self->centroids_size - 1 && !g_hit)
 __CPROVER_decreases(self->centroids_size - 1 - i)
 '''})
 
+MK = r"""
+static struct tdigest* mk(void) { struct tdigest* s = malloc(sizeof(*s)); __CPROVER_assume(s != NULL); __CPROVER_assume(s->centroids_capacity_ >= 1 && s->centroids_capacity_ <= CAPMAX);
+  s->centroids_ = malloc(sizeof(struct centroid) * s->centroids_capacity_); size_t nb_ = BUFCAP(s); s->buffer_ = malloc(sizeof(T) * nb_); __CPROVER_assume(s->centroids_ != NULL && s->buffer_ != NULL); return s; }
+"""
 def Hn(name, call):
-    return "void h_%s(void) { struct tdigest* s = malloc(sizeof(*s)); verif_exc = 0; %s; VERIF_CANARY_POINT; }\n" % (name, call)
-HARNESS = Hn("is_empty", "(void)is_empty(s)") + Hn("total", "(void)get_total_weight(s)") + Hn("update", "update(s, nondet_double())") + Hn("quantile", "(void)get_quantile(s, nondet_double())") + "void h_wavg(void) { (void)weighted_average(nondet_double(), nondet_double(), nondet_double(), nondet_double()); VERIF_CANARY_POINT; }\n"
+    return "void h_%s(void) { struct tdigest* s = mk(); verif_exc = 0; %s; VERIF_CANARY_POINT; }\n" % (name, call)
+HARNESS = MK + Hn("is_empty", "(void)is_empty(s)") + Hn("total", "(void)get_total_weight(s)") + Hn("update", "update(s, nondet_double())") + Hn("quantile", "(void)get_quantile(s, nondet_double())") + "void h_wavg(void) { (void)weighted_average(nondet_double(), nondet_double(), nondet_double(), nondet_double()); VERIF_CANARY_POINT; }\n"
 
 UNIT = {
     "id": "tdigest", "property": "C17",
